@@ -1,5 +1,368 @@
 import SpowtdModel.Model.Regrid
 import SpowtdModel.Model.Curves
+import Mathlib.Data.Rat.Floor
+import Mathlib.Tactic.Linarith
+import Mathlib.Tactic.FieldSimp
+import Mathlib.Tactic.Ring
 /- Helper lemmas for Props/C12.lean and Props/C13Grid.lean. -/
 namespace Spowtd
+
+/-! ### bridges between core `Rat.floor`/`Rat.ceil` and Mathlib's `⌊·⌋`/`⌈·⌉` -/
+
+theorem rat_floor_eq (q : Rat) : Rat.floor q = ⌊q⌋ := rfl
+
+theorem rat_ceil_eq (q : Rat) : Rat.ceil q = ⌈q⌉ := by
+  rw [Rat.ceil_eq_neg_floor_neg]; rfl
+
+/-! ### `intRange` -/
+
+theorem mem_intRange {lo hi k : Int} : k ∈ intRange lo hi ↔ lo ≤ k ∧ k < hi := by
+  unfold intRange
+  simp only [List.mem_map, List.mem_range]
+  constructor
+  · rintro ⟨i, hi, rfl⟩; omega
+  · rintro ⟨h1, h2⟩; exact ⟨(k - lo).toNat, by omega, by omega⟩
+
+theorem intRange_pairwise (lo hi : Int) : (intRange lo hi).Pairwise (· < ·) := by
+  unfold intRange
+  rw [List.pairwise_map]
+  exact List.pairwise_lt_range.imp (by intro a b h; omega)
+
+theorem intRange_reverse_pairwise (lo hi : Int) : (intRange lo hi).reverse.Pairwise (· > ·) := by
+  rw [List.pairwise_reverse]
+  exact intRange_pairwise lo hi
+
+theorem intRange_nodup (lo hi : Int) : (intRange lo hi).Nodup :=
+  (intRange_pairwise lo hi).imp (fun h => Int.ne_of_lt h)
+
+theorem intRange_eq_nil {lo hi : Int} (h : hi ≤ lo) : intRange lo hi = [] := by
+  unfold intRange
+  have : (hi - lo).toNat = 0 := by omega
+  rw [this]; rfl
+
+/-! ### one pair of samples -/
+
+/-- the targets of `crossingsPair` -/
+def pairTargets (step y0 y1 : Rat) : List Int :=
+  if ⌈y0 / step⌉ < ⌈y1 / step⌉ then intRange ⌈y0 / step⌉ ⌈y1 / step⌉
+  else (intRange ⌈y1 / step⌉ ⌈y0 / step⌉).reverse
+
+/-- the position reported for level `k` -/
+def pairPos (step x0 y0 x1 y1 : Rat) (k : Int) : Rat :=
+  x0 + ((k : Rat) - y0 / step) * (x1 - x0) / (y1 / step - y0 / step)
+
+theorem crossingsPair_rat (step x0 y0 x1 y1 : Rat) :
+    crossingsPair step x0 y0 x1 y1 =
+      (pairTargets step y0 y1).map (fun k => (k, pairPos step x0 y0 x1 y1 k)) := by
+  unfold pairTargets pairPos
+  rw [← rat_ceil_eq, ← rat_ceil_eq]
+  rfl
+
+theorem crossingsPair_levels (step x0 y0 x1 y1 : Rat) :
+    (crossingsPair step x0 y0 x1 y1).map (·.1) = pairTargets step y0 y1 := by
+  rw [crossingsPair_rat, List.map_map]
+  exact List.map_id' _
+
+theorem mem_crossingsPair {step x0 y0 x1 y1 : Rat} {k : Int} {x : Rat} :
+    (k, x) ∈ crossingsPair step x0 y0 x1 y1 ↔
+      k ∈ pairTargets step y0 y1 ∧ x = pairPos step x0 y0 x1 y1 k := by
+  rw [crossingsPair_rat, List.mem_map]
+  constructor
+  · rintro ⟨k', hk', he⟩
+    rw [Prod.mk.injEq] at he
+    obtain ⟨rfl, rfl⟩ := he
+    exact ⟨hk', rfl⟩
+  · rintro ⟨hk, rfl⟩
+    exact ⟨k, hk, rfl⟩
+
+theorem mem_pairTargets_ceil {step y0 y1 : Rat} {k : Int} :
+    k ∈ pairTargets step y0 y1 ↔
+      (⌈y0 / step⌉ ≤ k ∧ k < ⌈y1 / step⌉) ∨ (⌈y1 / step⌉ ≤ k ∧ k < ⌈y0 / step⌉) := by
+  unfold pairTargets
+  split
+  · rw [mem_intRange]; omega
+  · rw [List.mem_reverse, mem_intRange]; omega
+
+/-- a level is a target iff it separates the two scaled values, lower included, upper excluded -/
+theorem mem_pairTargets_scaled {step y0 y1 : Rat} {k : Int} :
+    k ∈ pairTargets step y0 y1 ↔
+      (y0 / step ≤ k ∧ (k : Rat) < y1 / step) ∨ (y1 / step ≤ k ∧ (k : Rat) < y0 / step) := by
+  rw [mem_pairTargets_ceil, Int.ceil_le, Int.ceil_le, Int.lt_ceil, Int.lt_ceil]
+
+theorem mem_pairTargets {step y0 y1 : Rat} (hs : 0 < step) {k : Int} :
+    k ∈ pairTargets step y0 y1 ↔
+      (y0 ≤ k * step ∧ (k : Rat) * step < y1) ∨ (y1 ≤ k * step ∧ (k : Rat) * step < y0) := by
+  rw [mem_pairTargets_scaled, div_le_iff₀ hs, div_le_iff₀ hs, lt_div_iff₀ hs, lt_div_iff₀ hs]
+
+theorem mem_pairTargets_minmax {step y0 y1 : Rat} (hs : 0 < step) {k : Int} :
+    k ∈ pairTargets step y0 y1 ↔
+      (min y0 y1 ≤ (k : Rat) * step ∧ (k : Rat) * step < max y0 y1) := by
+  rw [mem_pairTargets hs]
+  rcases le_total y0 y1 with h | h
+  · rw [min_eq_left h, max_eq_right h]
+    constructor
+    · rintro (h' | ⟨h1, h2⟩)
+      · exact h'
+      · exact absurd (lt_of_le_of_lt h1 h2) (not_lt.mpr h)
+    · exact Or.inl
+  · rw [min_eq_right h, max_eq_left h]
+    constructor
+    · rintro (⟨h1, h2⟩ | h')
+      · exact absurd (lt_of_le_of_lt h1 h2) (not_lt.mpr h)
+      · exact h'
+    · exact Or.inr
+
+theorem pairTargets_nodup (step y0 y1 : Rat) : (pairTargets step y0 y1).Nodup := by
+  unfold pairTargets
+  split
+  · exact intRange_nodup _ _
+  · exact List.pairwise_reverse.mpr ((intRange_nodup _ _).imp Ne.symm)
+
+theorem pairTargets_ascending {step y0 y1 : Rat} (hs : 0 < step) (h : y0 ≤ y1) :
+    (pairTargets step y0 y1).Pairwise (· < ·) := by
+  unfold pairTargets
+  split
+  · exact intRange_pairwise _ _
+  · have hc : ⌈y0 / step⌉ ≤ ⌈y1 / step⌉ :=
+      Int.ceil_le_ceil ((div_le_div_iff_of_pos_right hs).mpr h)
+    rw [intRange_eq_nil hc]
+    exact List.Pairwise.nil
+
+theorem pairTargets_descending {step y0 y1 : Rat} (hs : 0 < step) (h : y1 ≤ y0) :
+    (pairTargets step y0 y1).Pairwise (· > ·) := by
+  unfold pairTargets
+  split
+  · rename_i hlt
+    have hc : ⌈y1 / step⌉ ≤ ⌈y0 / step⌉ :=
+      Int.ceil_le_ceil ((div_le_div_iff_of_pos_right hs).mpr h)
+    exact absurd hlt (not_lt.mpr hc)
+  · exact intRange_reverse_pairwise _ _
+
+theorem pairPos_on_chord {step x0 y0 x1 y1 : Rat} (hs : 0 < step) (hx : x0 ≠ x1) {k : Int}
+    (hk : k ∈ pairTargets step y0 y1) :
+    y0 + (y1 - y0) * ((pairPos step x0 y0 x1 y1 k - x0) / (x1 - x0)) = (k : Rat) * step := by
+  have hy : y1 - y0 ≠ 0 := by
+    rcases (mem_pairTargets hs).mp hk with ⟨h1, h2⟩ | ⟨h1, h2⟩
+    · exact ne_of_gt (sub_pos.mpr (lt_of_le_of_lt h1 h2))
+    · exact ne_of_lt (sub_neg.mpr (lt_of_le_of_lt h1 h2))
+  have hx' : x1 - x0 ≠ 0 := sub_ne_zero.mpr (Ne.symm hx)
+  have hs' : step ≠ 0 := ne_of_gt hs
+  have hY : y1 / step - y0 / step ≠ 0 := by
+    rw [← sub_div]; exact div_ne_zero hy hs'
+  unfold pairPos
+  field_simp
+  ring
+
+theorem pairPos_between {step x0 y0 x1 y1 : Rat} (hx : x0 ≤ x1) {k : Int}
+    (hk : k ∈ pairTargets step y0 y1) :
+    x0 ≤ pairPos step x0 y0 x1 y1 k ∧ pairPos step x0 y0 x1 y1 k ≤ x1 := by
+  have ht : 0 ≤ ((k : Rat) - y0 / step) / (y1 / step - y0 / step) ∧
+      ((k : Rat) - y0 / step) / (y1 / step - y0 / step) ≤ 1 := by
+    rcases mem_pairTargets_scaled.mp hk with ⟨h1, h2⟩ | ⟨h1, h2⟩
+    · have hpos : 0 < y1 / step - y0 / step := by linarith
+      exact ⟨div_nonneg (by linarith) (le_of_lt hpos), (div_le_one hpos).mpr (by linarith)⟩
+    · have hneg : y1 / step - y0 / step < 0 := by linarith
+      exact ⟨div_nonneg_of_nonpos (by linarith) (le_of_lt hneg),
+        (div_le_one_of_neg hneg).mpr (by linarith)⟩
+  have he : pairPos step x0 y0 x1 y1 k =
+      x0 + ((k : Rat) - y0 / step) / (y1 / step - y0 / step) * (x1 - x0) := by
+    unfold pairPos; ring
+  rw [he]
+  have hd : 0 ≤ x1 - x0 := sub_nonneg.mpr hx
+  obtain ⟨t0, t1⟩ := ht
+  constructor
+  · have := mul_nonneg t0 hd
+    linarith
+  · have := mul_le_mul_of_nonneg_right t1 hd
+    linarith
+
+/-! ### a whole series -/
+
+theorem mem_crossings (step : Rat) (pts : List (Rat × Rat)) (c : Int × Rat) :
+    c ∈ crossings step pts ↔
+      ∃ i a b, pts[i]? = some a ∧ pts[i + 1]? = some b ∧
+        c ∈ crossingsPair step a.1 a.2 b.1 b.2 := by
+  induction pts with
+  | nil => simp [crossings]
+  | cons a rest ih =>
+    cases rest with
+    | nil => simp [crossings]
+    | cons b rest =>
+      rw [crossings, List.mem_append, ih]
+      constructor
+      · rintro (h | ⟨i, a', b', h1, h2, h3⟩)
+        · exact ⟨0, a, b, rfl, rfl, h⟩
+        · exact ⟨i + 1, a', b', h1, h2, h3⟩
+      · rintro ⟨i, a', b', h1, h2, h3⟩
+        cases i with
+        | zero =>
+          simp only [List.getElem?_cons_zero, List.getElem?_cons_succ, Option.some.injEq,
+            Nat.zero_add] at h1 h2
+          subst h1 h2
+          exact Or.inl h3
+        | succ i =>
+          exact Or.inr ⟨i, a', b', h1, h2, h3⟩
+
+theorem crossingsPair_shift_x (step c x0 y0 x1 y1 : Rat) :
+    crossingsPair step (x0 + c) y0 (x1 + c) y1 =
+      (crossingsPair step x0 y0 x1 y1).map (fun q => (q.1, q.2 + c)) := by
+  rw [crossingsPair_rat, crossingsPair_rat, List.map_map]
+  apply List.map_congr_left
+  intro k _
+  simp only [Function.comp, pairPos]
+  rw [Prod.mk.injEq]
+  refine ⟨rfl, ?_⟩
+  ring
+
+theorem crossings_shift (step c : Rat) (pts : List (Rat × Rat)) :
+    crossings step (pts.map (fun p => (p.1 + c, p.2))) =
+      (crossings step pts).map (fun q => (q.1, q.2 + c)) := by
+  induction pts with
+  | nil => rfl
+  | cons a rest ih =>
+    cases rest with
+    | nil => rfl
+    | cons b rest =>
+      rw [List.map_cons] at ih
+      rw [List.map_cons, List.map_cons, crossings, crossings, List.map_append, ih,
+        crossingsPair_shift_x]
+
+/-! ### distinct levels, mean position per level -/
+
+section levels
+variable {α : Type}
+
+def levelStep (acc : List Int) (c : Int × α) : List Int :=
+  if acc.contains c.1 then acc else acc ++ [c.1]
+
+theorem levelsOf_eq_foldl (cs : List (Int × α)) : levelsOf cs = cs.foldl levelStep [] := rfl
+
+theorem mem_foldl_levelStep (cs : List (Int × α)) (acc : List Int) (k : Int) :
+    k ∈ cs.foldl levelStep acc ↔ k ∈ acc ∨ ∃ x, (k, x) ∈ cs := by
+  induction cs generalizing acc with
+  | nil => simp
+  | cons c cs ih =>
+    rw [List.foldl_cons, ih]
+    obtain ⟨k', x'⟩ := c
+    unfold levelStep
+    simp only [List.mem_cons, Prod.mk.injEq]
+    split
+    · rename_i hc
+      have hc' : k' ∈ acc := List.contains_iff_mem.mp hc
+      constructor
+      · rintro (h | ⟨x, hx⟩)
+        · exact Or.inl h
+        · exact Or.inr ⟨x, Or.inr hx⟩
+      · rintro (h | ⟨x, ⟨rfl, _⟩ | hx⟩)
+        · exact Or.inl h
+        · exact Or.inl hc'
+        · exact Or.inr ⟨x, hx⟩
+    · rw [List.mem_append, List.mem_singleton]
+      constructor
+      · rintro ((h | rfl) | ⟨x, hx⟩)
+        · exact Or.inl h
+        · exact Or.inr ⟨x', Or.inl ⟨rfl, rfl⟩⟩
+        · exact Or.inr ⟨x, Or.inr hx⟩
+      · rintro (h | ⟨x, ⟨rfl, _⟩ | hx⟩)
+        · exact Or.inl (Or.inl h)
+        · exact Or.inl (Or.inr rfl)
+        · exact Or.inr ⟨x, hx⟩
+
+theorem nodup_foldl_levelStep (cs : List (Int × α)) (acc : List Int) (h : acc.Nodup) :
+    (cs.foldl levelStep acc).Nodup := by
+  induction cs generalizing acc with
+  | nil => exact h
+  | cons c cs ih =>
+    rw [List.foldl_cons]
+    apply ih
+    unfold levelStep
+    split
+    · exact h
+    · rename_i hc
+      have hc' : c.1 ∉ acc := fun hm => hc (List.contains_iff_mem.mpr hm)
+      rw [List.nodup_append]
+      refine ⟨h, List.pairwise_singleton _ _, ?_⟩
+      intro a ha b hb
+      rw [List.mem_singleton] at hb
+      subst hb
+      intro hab
+      exact hc' (hab ▸ ha)
+
+theorem mem_levelsOf (cs : List (Int × α)) (k : Int) :
+    k ∈ levelsOf cs ↔ ∃ x, (k, x) ∈ cs := by
+  rw [levelsOf_eq_foldl, mem_foldl_levelStep]
+  simp only [List.not_mem_nil, false_or]
+
+theorem levelsOf_nodup (cs : List (Int × α)) : (levelsOf cs).Nodup :=
+  nodup_foldl_levelStep cs [] List.nodup_nil
+
+variable [Num α]
+
+theorem meanCrossings_levels (step : α) (pts : List (α × α)) :
+    (meanCrossings step pts).map (·.1) = levelsOf (crossings step pts) := by
+  unfold meanCrossings
+  simp only [List.map_map]
+  exact List.map_id' _
+
+theorem mem_meanCrossings (step : α) (pts : List (α × α)) (k : Int) (v : α) :
+    (k, v) ∈ meanCrossings step pts ↔
+      (∃ x, (k, x) ∈ crossings step pts) ∧
+      v = mean (((crossings step pts).filter (fun c => c.1 == k)).map (·.2)) := by
+  rw [← mem_levelsOf]
+  unfold meanCrossings
+  simp only [List.mem_map, Prod.mk.injEq]
+  constructor
+  · rintro ⟨k', hk', rfl, rfl⟩
+    exact ⟨hk', rfl⟩
+  · rintro ⟨hk, rfl⟩
+    exact ⟨k, hk, rfl, rfl⟩
+
+end levels
+
+/-! ### the water-level grid -/
+
+theorem mem_zetaGrid (zmin zmax step : Rat) (k : Int) :
+    k ∈ zetaGrid zmin zmax step ↔ ⌊zmin / step⌋ ≤ k ∧ k < ⌈zmax / step⌉ := by
+  unfold zetaGrid
+  rw [mem_intRange, ← rat_ceil_eq, ← rat_floor_eq]
+  rfl
+
+theorem zetaGrid_of_between {zmin zmax step : Rat} (hs : 0 < step) {k : Int}
+    (h1 : zmin ≤ (k : Rat) * step) (h2 : (k : Rat) * step < zmax) :
+    k ∈ zetaGrid zmin zmax step := by
+  rw [mem_zetaGrid, Int.lt_ceil, lt_div_iff₀ hs]
+  refine ⟨?_, h2⟩
+  have h3 : zmin / step ≤ k := (div_le_iff₀ hs).mpr h1
+  exact Int.cast_le.mp (le_trans (Int.floor_le _) h3)
+
+theorem zetaGrid_floor {zmin zmax step : Rat} (hs : 0 < step) (h : zmin < zmax) :
+    ⌊zmin / step⌋ ∈ zetaGrid zmin zmax step ∧ ((⌊zmin / step⌋ : Int) : Rat) * step ≤ zmin := by
+  constructor
+  · rw [mem_zetaGrid, Int.lt_ceil]
+    refine ⟨le_refl _, lt_of_le_of_lt (Int.floor_le _) ?_⟩
+    exact (div_lt_div_iff_of_pos_right hs).mpr h
+  · exact (le_div_iff₀ hs).mp (Int.floor_le _)
+
+theorem zetaGrid_tight {zmin zmax step : Rat} (hs : 0 < step) {k : Int}
+    (h : k ∈ zetaGrid zmin zmax step) :
+    zmin - step < (k : Rat) * step ∧ (k : Rat) * step < zmax := by
+  rw [mem_zetaGrid, Int.lt_ceil, lt_div_iff₀ hs] at h
+  refine ⟨?_, h.2⟩
+  have h1 : zmin / step < (⌊zmin / step⌋ : Rat) + 1 := Int.lt_floor_add_one _
+  have h2 : ((⌊zmin / step⌋ : Int) : Rat) ≤ (k : Rat) := Int.cast_le.mpr h.1
+  have h3 : zmin / step < (k : Rat) + 1 := by linarith
+  have h4 := (div_lt_iff₀ hs).mp h3
+  linarith
+
+theorem crossings_level_in_grid {zmin zmax step : Rat} (hs : 0 < step) {pts : List (Rat × Rat)}
+    (hb : ∀ p ∈ pts, zmin ≤ p.2 ∧ p.2 ≤ zmax) {k : Int} {x : Rat}
+    (h : (k, x) ∈ crossings step pts) : k ∈ zetaGrid zmin zmax step := by
+  obtain ⟨i, a, b, ha, hb', hc⟩ := (mem_crossings step pts (k, x)).mp h
+  have hk := (mem_pairTargets_minmax hs).mp (mem_crossingsPair.mp hc).1
+  have ha' := hb a (List.mem_of_getElem? ha)
+  have hb'' := hb b (List.mem_of_getElem? hb')
+  apply zetaGrid_of_between hs
+  · exact le_trans (le_min ha'.1 hb''.1) hk.1
+  · exact lt_of_lt_of_le hk.2 (max_le ha'.2 hb''.2)
+
 end Spowtd
